@@ -97,7 +97,8 @@ def make_interp(arch_spec, dialects=None, plain=False):
 
     @dataclass
     class EventInterp(ArchSpecInterpreter):
-        keys: ClassVar[list] = ["verif.events", "spec.interp", "main"]
+        # the package's own key list for spec-carrying interpreters, with the event tables in front
+        keys: ClassVar[list] = ["verif.events"] + [k for k in ArchSpecInterpreter.keys if k != "verif.events"]
         events: list = field(default_factory=list, kw_only=True)
 
     return EventInterp(dialects or move, arch_spec=arch_spec)
